@@ -85,11 +85,12 @@ def bounded(ctx):
         """expected denotation after reverse complement: each part mirrored, strand negated"""
         out = []
         for (pos, strand) in den:
-            out.append((tuple(sorted((n - 1 - p) % n for p in pos)), -bc.norm_strand(strand)))
+            # a strandless part has no opposite strand: it stays strandless (written 0 here)
+            out.append((tuple(sorted((n - 1 - p) % n for p in pos)), -strand if strand in (1, -1) else 0))
         return sorted(out)
 
     def norm_den(den):
-        return sorted((tuple(sorted(pos)), bc.norm_strand(st)) for (pos, st) in den)
+        return sorted((tuple(sorted(pos)), st if st in (1, -1) else 0) for (pos, st) in den)
 
     for n in range(1, maxn + 1):
         s = letters[:n]
